@@ -92,6 +92,11 @@ def generate(tier, rng):
                         cases.append(dict(base, stream="malformed", op=dict(kind="shares", letters=[bad])))
                     cases.append(dict(base, stream="malformed", op=dict(kind="sum_to", args=[["L", "z"]])))
                     cases.append(dict(base, stream="malformed", op=dict(kind="sum_over", args=[["N", "nosuchname"]])))
+                    # keys that are no dimension but look like one: several of the array's letters run together, the empty string
+                    for junk in {"".join(adims[:2]), "".join(adims), "".join(adims[-2:]), ""}:
+                        if junk not in adims:
+                            for kind in ("sum_over", "sum_to"):
+                                cases.append(dict(base, stream="malformed", coq=False, op=dict(kind=kind, args=[["L", junk]])))
     return cases
 
 
